@@ -24,6 +24,25 @@ type negCall struct {
 	Header string // value of the call's own request header at the time of the call ("" = absent)
 	Offers []string
 	G      bool `json:",omitempty"` // generated from the grammatical pools only (statistics)
+	// Split > 0: the header travels as TWO field lines, Header cut at its Split-th comma (a list-valued
+	// field sent in several lines means the same as the lines joined with ", ": RFC 9110 §5.3)
+	Split int `json:",omitempty"`
+}
+
+// fieldLines returns the field lines of the call's header.
+func (k negCall) fieldLines() []string {
+	if k.Split > 0 {
+		n := 0
+		for i := 0; i < len(k.Header); i++ {
+			if k.Header[i] == ',' {
+				n++
+				if n == k.Split {
+					return []string{k.Header[:i], k.Header[i+1:]}
+				}
+			}
+		}
+	}
+	return []string{k.Header}
 }
 
 type negCase struct {
@@ -39,10 +58,11 @@ func doNeg(c *router.Context, k negCall, offers []string) (ans string, panicked 
 			panicked = true
 		}
 	}()
-	if k.Header == "" {
-		c.Request.Header.Del(negHeader[k.Kind])
-	} else {
-		c.Request.Header.Set(negHeader[k.Kind], k.Header)
+	c.Request.Header.Del(negHeader[k.Kind])
+	if k.Header != "" {
+		for _, line := range k.fieldLines() {
+			c.Request.Header.Add(negHeader[k.Kind], line)
+		}
 	}
 	switch k.Kind {
 	case kAccept:
@@ -201,6 +221,10 @@ func genNegHeader(r *hx.Rand, kind int) (string, bool) {
 		n = r.Range(15, 18) // around the 16 cells of the parse arena
 	case 2:
 		n = r.Range(6, 12)
+	case 3:
+		if r.Chance(1, 3) {
+			n = r.Range(30, 120) // very many elements: far beyond the arena, the cache and any fixed buffer
+		}
 	}
 	var b strings.Builder
 	if r.Chance(1, 10) {
@@ -266,7 +290,11 @@ func genNeg(r *hx.Rand) *negCase {
 		if r.Chance(1, 4) {
 			offers[kind], go_[kind] = genOffers(r, kind)
 		}
-		k.Calls = append(k.Calls, negCall{kind, cur[kind], offers[kind], gh[kind] && go_[kind]})
+		call := negCall{kind, cur[kind], offers[kind], gh[kind] && go_[kind], 0}
+		if nc := strings.Count(call.Header, ","); nc > 0 && r.Chance(1, 6) {
+			call.Split = r.Range(1, nc)
+		}
+		k.Calls = append(k.Calls, call)
 	}
 	return k
 }
@@ -386,6 +414,9 @@ func emitNeg(id string, k *negCase, st *hx.Stats) string {
 			st.Count("N_call")
 			if c.G {
 				st.Count("N_call_grammatical_header_and_offers")
+			}
+			if len(c.fieldLines()) > 1 {
+				st.Count("N_call_header_in_two_field_lines")
 			}
 			key := strconv.Itoa(c.Kind) + "|" + c.Header
 			if c.Kind == kAccept && prev[key] {
